@@ -1,7 +1,14 @@
 package main
 
 import (
+	"bytes"
+	"compress/flate"
+	"errors"
+	"io"
+	"math/rand"
+
 	"fmt"
+	kflate "github.com/klauspost/compress/flate"
 
 	"github.com/lxzan/gws"
 )
@@ -35,11 +42,14 @@ func inboundOne(c *Ctx, spec connSpec, stream []byte, chunkMode int, tag string,
 		limit = 16777216
 	}
 	o := specReceive(spec.Server, conn.VerifPD().Enabled, limit, spec.Utf8, takeover, bits, stream)
-	if why, sig := judgeInbound(o, obs); why != "" {
+	why, sig, skip := judgeStream(o, obs)
+	if why != "" {
 		c.oracleFail(why+" ["+tag+"]", sig, map[string]any{"spec": fmt.Sprintf("%+v", spec), "stream_hex": fmt.Sprintf("%x", head(stream, 400)), "stream_len": len(stream),
 			"chunking": chunkMode, "observed_kind": obs.Kind, "observed_status": obs.A, "close_err": obs.CloseErr, "events": len(obs.Events)})
 	}
-	inboundCase(c, spec, conn, stream, o, obs, tag)
+	if !skip {
+		inboundCase(c, spec, conn, stream, o, obs, tag)
+	}
 	c.count(tag+fmt.Sprintf("%x", head(stream, 48)), len(stream) > 2, fmt.Sprintf("end=%s", o.Kind), fmt.Sprintf("observed_kind=%d", obs.Kind), fmt.Sprintf("chunking=%d", chunkMode), fmt.Sprintf("events=%d", min(len(obs.Events), 5)))
 	return nil
 }
@@ -61,6 +71,9 @@ func statePrefix(state int, masked bool) []byte {
 func runC03(c *Ctx) error {
 	c.Sum.Rule = "single-frame sweep: every first byte (FIN/RSV/opcode) x mask bit x length class x reassembly state (idle, in text, in binary, in compressed) x compression negotiated or not x both roles, one frame after a state-setting prefix and followed by a valid ping; plus random valid/invalid multi-frame streams under three chunkings; oracle = independent RFC 6455/7692 receiver; non-trivial = stream longer than one header; distinct by (config, stream prefix)"
 	specs := inboundSpecs()
+	if err := d18Probe(c); err != nil {
+		return err
+	}
 	// (i) the sweep
 	lenClasses := []struct {
 		n    int
@@ -250,3 +263,44 @@ func randomStream(c *Ctx, spec connSpec, nmsgs int, corrupt bool) ([]byte, strin
 }
 
 var _ = gws.OpcodeText
+
+// d18Probe (known finding D18): search the truncations of one compressed text for a cut that the pinned inflater accepts
+// although the stream is incomplete, and send it as a whole compressed message.
+func d18Probe(c *Ctx) error {
+	rng := rand.New(rand.NewSource(18))
+	words := []string{"alpha ", "beta ", "gamma ", "delta ", "lorem ipsum dolor sit amet ", "\u043a\u043b\u044e\u0447 ", "\u4e2d\u6587 "}
+	for attempt := 0; attempt < 20; attempt++ {
+		var text []byte
+		for len(text) < 3000 {
+			text = append(text, words[rng.Intn(len(words))]...)
+		}
+		if found, err := d18Try(c, text); found || err != nil {
+			return err
+		}
+	}
+	c.Sum.Notes = append(c.Sum.Notes, "d18 probe: no truncation of the probe texts is accepted by the pinned inflater")
+	return nil
+}
+
+func d18Try(c *Ctx, text []byte) (bool, error) {
+	z := rfc7692Deflate(text, nil, 6)
+	tail := []byte{0x00, 0x00, 0xff, 0xff, 0x01, 0x00, 0x00, 0xff, 0xff}
+	for cut := len(z) - 1; cut > 4; cut-- {
+		src := append(append([]byte(nil), z[:cut]...), tail...)
+		_, e1 := io.ReadAll(flate.NewReader(bytes.NewReader(src)))
+		_, e2 := io.ReadAll(kflate.NewReader(bytes.NewReader(src)))
+		if !(errors.Is(e1, io.ErrUnexpectedEOF) && e2 == nil) {
+			continue
+		}
+		for _, server := range []bool{true, false} {
+			spec := connSpec{Server: server, PMD: true, RLimit: 1 << 20}
+			stream := encodeFrame(frameSpec{Fin: true, Rsv1: true, Opcode: 1, Masked: server, Key: [4]byte{7, 7, 7, 7}, Payload: z[:cut], DeclLen: -1})
+			stream = append(stream, dataFrame(9, true, server, []byte("after"))...)
+			if err := inboundOne(c, spec, stream, 0, fmt.Sprintf("d18 probe: compressed message cut at %d of %d server=%v", cut, len(z), server), "C03"); err != nil {
+				return true, err
+			}
+		}
+		return true, nil
+	}
+	return false, nil
+}
